@@ -4,7 +4,7 @@
    (fixed_mask, guard_neg, guard_nan); all false = AS CODED in /repo, see Model/Train.v. *)
 From Coq Require Import ZArith List Bool QArith Qcanon.
 From Coq Require Import Sorted.
-From Batchie Require Import Lib.Sexp Lib.Num Lib.PyRt Generated.Consts Generated.SrcTrain Model.Encode Model.Screen Model.Train
+From Batchie Require Import Lib.Sexp Lib.Num Lib.PyRt Generated.Consts Generated.ConstsClip Generated.SrcTrain Model.Encode Model.Screen Model.Train
   Model.TrainScreen Proofs.C04Train Proofs.C04Screen Proofs.C04Source Proofs.C04SourceC20.
 From Batchie Require Model.Synergy.
 Import ListNotations.
